@@ -152,7 +152,7 @@ fn draw_edit(r: &mut Prng, f: &FactSet, which: u64) -> Option<Edit> {
                 None
             } else {
                 let c = *r.pick(&ids);
-                if Some(c) == cur || c == id {
+                if Some(c) == cur || c == id || c == 0 {
                     return None;
                 }
                 Some(c)
